@@ -47,7 +47,8 @@ def tasks(tier, seed):
         out += [('patterns', t) for t in 'IilLfdDT']
         out += [('flagwords', hi) for hi in range(0, 256, 16)]
     out += [('wide',), ('payloads',), ('strings',), ('unsorted',),
-            ('timestamps',), ('headers',), ('invalid-on-send',), ('nested',)]
+            ('timestamps',), ('headers',), ('invalid-on-send',), ('nested',),
+            ('huge',)]
     out += [('methods', m.name) for m in spec_table.METHODS]
     out += [('dense',) + t for t in corpus.dense_tasks(tier)]
     out += [('tagarrays', t) for t in 'tbBsuIilLfdDSTFVx']
@@ -285,6 +286,63 @@ def run(task, ctx):
                     'en_US'), 0)
             ctx.case(('f', data), True)
             check_frame(ctx, data, 'non-UTF-8 longstr argument')
+    elif kind == 'huge':
+        # frames beyond 1, 2 and 4 MiB (a larger frame-max is negotiated):
+        # long strings with a multi-byte character across every MiB mark, at
+        # each of its byte offsets; non-UTF-8 long strings inside containers
+        # that large; the values must be what they are in small frames, of
+        # the same types (a str, or the raw bytes - not a view)
+        m = spec_table.BY_NAME['Connection.StartOk']
+        mib = 1 << 20
+        for size in (mib, 2 * mib, 4 * mib):
+            for ch in ('\xe9', '\u20ac', '\U0001f600'):
+                width = len(ch.encode('utf-8'))
+                for lead in range(1, width):
+                    # the character's first byte sits `lead` bytes before
+                    # the mark
+                    text = 'a' * (size - lead) + ch + 'b' * 40
+                    raw = text.encode('utf-8')
+                    data, _f = refcodec.enc_method_frame(
+                        m, ({}, 'PLAIN', Raw(struct.pack('>I', len(raw)) +
+                                             raw), 'en_US'), 0)
+                    ctx.case(('huge', size, ch, lead, 'arg'), True)
+                    check_frame(ctx, data, 'longstr argument of %d bytes, %r '
+                                'across the %d MiB mark' % (len(raw), ch,
+                                                            size // mib))
+                    if size == mib:
+                        vb = b'S' + struct.pack('>I', len(raw)) + raw
+                        check_value(ctx, vb, 'long string across the MiB '
+                                    'mark', through_frame=False)
+                        table = Raw(raw_table([('k', vb), ('z', b't\x01')]))
+                        data, _f = refcodec.enc_method_frame(
+                            QD, (0, 'q', False, False, False, False, False,
+                                 table), 1)
+                        ctx.case(('huge', size, ch, lead, 'table'), True)
+                        check_frame(ctx, data, 'table value across the MiB '
+                                    'mark')
+            filler = b'S' + struct.pack('>I', size) + b'f' * size
+            for bad in (b'\xff', b'caf\xe9', b'\x00PLAIN\x00\xff\xfe'):
+                odd = b'S' + struct.pack('>I', len(bad)) + bad
+                arr = b'A' + struct.pack('>I', len(odd) + len(filler)) + \
+                    odd + filler
+                for label, items in (
+                        ('before the filler', [('a', odd), ('f', filler)]),
+                        ('after the filler', [('f', filler), ('z', odd)]),
+                        ('in an array', [('arr', arr)]),
+                        ('in a nested table', [('n', b'F' + raw_table(
+                            [('f', filler), ('z', odd)]))])):
+                    table = Raw(raw_table(items))
+                    data, _f = refcodec.enc_method_frame(
+                        QD, (0, 'q', False, False, False, False, False,
+                             table), 1)
+                    ctx.case(('huge', size, bad, label), True)
+                    check_frame(ctx, data, 'non-UTF-8 long string %s of a '
+                                '%d MiB container' % (label, size // mib))
+                    props = {'headers': table}
+                    data, _f = refcodec.enc_header_frame(1, props, 1)
+                    ctx.case(('huge', size, bad, label, 'h'), True)
+                    check_frame(ctx, data, 'non-UTF-8 long string %s of %d '
+                                'MiB headers' % (label, size // mib))
     elif kind == 'unsorted':
         keys = ['b', 'a', 'é', '']
         vals = [b'b\x01', b'S\x00\x00\x00\x01x', b't\x01', b'V']
